@@ -424,6 +424,13 @@ class ProgramGen:
                     nm = self.name(1.0)
                     tries += 1
                 outs.append(nm)
+            if rng.random() < 0.04 and isinstance(outs[0][0], str) and outs[0][0].lower() != outs[0][0].upper():
+                # the same name twice in ONE statement, differing only in letter case / surrounding blanks:
+                # must be rejected as a redefinition (names are unique ignoring case)
+                v = [p.upper() if isinstance(p, str) else p for p in outs[0]]
+                if v == outs[0]:
+                    v = [p.lower() if isinstance(p, str) else p for p in outs[0]]
+                outs.append(v)
             named = rng.random() < 0.4
         inferred, q = self.infer(e)
         if outs:
